@@ -169,7 +169,7 @@ func cmdRun(args []string) int {
 	res := ld.explore(h, o)
 	printResult(res, *verbose)
 	if *native && len(res.Results) > 0 {
-		confirmResults(ld, h, res)
+		confirmResults(ld, h, res, o.Tier)
 	}
 	return 0
 }
@@ -204,7 +204,7 @@ type confirmed struct {
 	trace []string
 }
 
-func confirmResults(ld *Loaded, h *HarnessSpec, res *HarnessResult) []confirmed {
+func confirmResults(ld *Loaded, h *HarnessSpec, res *HarnessResult, tier int) []confirmed {
 	bin, err := ld.buildNative(h.PkgDir)
 	if err != nil {
 		fmt.Fprintln(os.Stderr, err)
@@ -212,6 +212,7 @@ func confirmResults(ld *Loaded, h *HarnessSpec, res *HarnessResult) []confirmed 
 	}
 	var vecs []Vector
 	for _, r := range res.Results {
+		r.Inputs["__tier"] = strconv.Itoa(tier)
 		vecs = append(vecs, Vector{Harness: h.Name, Inputs: r.Inputs})
 	}
 	traces, err := ld.runNative(bin, vecs, 2*time.Minute)
